@@ -247,6 +247,13 @@ fn run_union(ws: &mut VirtualWorkspace, header: &Value, cases: &[Value]) {
 // ------------------------------------------------------------------------------------------------
 // render: case {"id", "s"}: t1 = ty(s); text = humanize_type(t1, Documentation); t2 = ty(text)
 // ------------------------------------------------------------------------------------------------
+/// A string literal value as its code points ("s:97,34,98"): control and non-ASCII characters
+/// are compared with the specification's normal form without any text encoding in between.
+fn code_points(prefix: &str, s: &str) -> String {
+    let cps: Vec<String> = s.chars().map(|c| (c as u32).to_string()).collect();
+    format!("{prefix}:{}", cps.join(","))
+}
+
 fn desc_tree(t: &LuaType, depth: u32) -> Value {
     let leaf = |k: &str, n: String| json!({"k": k, "n": n, "m": [], "keys": []});
     if depth > 12 {
@@ -254,10 +261,10 @@ fn desc_tree(t: &LuaType, depth: u32) -> Value {
     }
     let kids = |ts: &[LuaType]| -> Vec<Value> { ts.iter().map(|x| desc_tree(x, depth + 1)).collect() };
     match t {
-        LuaType::DocStringConst(s) => leaf("lit", format!("s:{}", s.as_str())),
+        LuaType::DocStringConst(s) => leaf("lit", code_points("s", s.as_str())),
         LuaType::DocIntegerConst(i) => leaf("lit", format!("i:{i}")),
         LuaType::DocBooleanConst(b) => leaf("lit", format!("b:{b}")),
-        LuaType::StringConst(s) => leaf("const", format!("s:{}", s.as_str())),
+        LuaType::StringConst(s) => leaf("const", code_points("s", s.as_str())),
         LuaType::IntegerConst(i) => leaf("const", format!("i:{i}")),
         LuaType::BooleanConst(b) => leaf("const", format!("b:{b}")),
         LuaType::FloatConst(f) => leaf("const", format!("f:{f}")),
